@@ -8,21 +8,9 @@
 (*   FallThrough = TRUE is String_Look as found: after an escape the       *)
 (*   escape letter was appended as well.                                    *)
 (***************************************************************************)
-EXTENDS Integers, Sequences, FiniteSets, TLC
+EXTENDS Escapes
 CONSTANTS MaxLen, FallThrough
 VARIABLE dummy
-
-(* byte values *)
-Q == 34  BS == 92  APOS == 39  QM == 63
-Esc == [x \in {7, 8, 12, 10, 13, 9, 11, BS, APOS, Q, QM} |->
-          CASE x = 7 -> 97 [] x = 8 -> 98 [] x = 12 -> 102 [] x = 10 -> 110 [] x = 13 -> 114 [] x = 9 -> 116 [] x = 11 -> 118
-            [] x = BS -> BS [] x = APOS -> APOS [] x = Q -> Q [] x = QM -> QM]
-UnEsc(c) == IF \E x \in DOMAIN Esc : Esc[x] = c THEN CHOOSE x \in DOMAIN Esc : Esc[x] = c ELSE -1
-
-RECURSIVE EncBody(_)
-EncBody(s) == IF s = <<>> THEN <<>>
-              ELSE (IF Head(s) \in DOMAIN Esc THEN <<BS, Esc[Head(s)]>> ELSE <<Head(s)>>) \o EncBody(Tail(s))
-Enc(s) == <<Q>> \o EncBody(s) \o <<Q>>
 
 (* String_Look: returns <<decoded, number of characters consumed>> or <<"error", i>> *)
 RECURSIVE DecFrom(_, _, _)
